@@ -4,6 +4,7 @@ import (
 	"encoding/base64"
 	"fmt"
 	"math/big"
+	"reflect"
 	"time"
 )
 
@@ -206,6 +207,73 @@ func Metadata(m Model, i Info) map[string]interface{} {
 		out["versionId"] = m.VersionID
 		if m.UpdatedTime > 0 {
 			out["updated"] = RFC3339(m.UpdatedTime)
+		}
+	}
+	return out
+}
+
+// ExternalKeys are the members of the external document the property statements speak about.
+var ExternalKeys = []string{"@context", "id", "alsoKnownAs", "verificationMethod", "authentication", "assertionMethod", "keyAgreement", "capabilityDelegation", "capabilityInvocation", "service"}
+
+func emptyish(v interface{}) bool {
+	if v == nil {
+		return true
+	}
+	if l, ok := v.([]interface{}); ok && len(l) == 0 {
+		return true
+	}
+	return false
+}
+
+// DiffExternal compares an external document with the reference projection on the stated members only (an
+// absent member equals an empty list); members the statements do not mention are ignored, except the internal
+// publicKey section, which must never appear. It returns the names of the differing members.
+func DiffExternal(got, want map[string]interface{}) []string {
+	var out []string
+	g, w := deep(got).(map[string]interface{}), deep(want).(map[string]interface{})
+	for _, k := range ExternalKeys {
+		gv, wv := g[k], w[k]
+		if emptyish(gv) && emptyish(wv) {
+			continue
+		}
+		if !reflect.DeepEqual(gv, wv) {
+			out = append(out, k)
+		}
+	}
+	if _, leaked := g["publicKey"]; leaked {
+		out = append(out, "publicKey(leaked)")
+	}
+	return out
+}
+
+// DiffMetadata compares document metadata with the reference rendering on the stated fields only: method.published,
+// method.updateCommitment, method.recoveryCommitment, method.anchorOrigin, deactivated, versionId, created, updated,
+// canonicalId, equivalentId.
+func DiffMetadata(got, want map[string]interface{}) []string {
+	var out []string
+	g, w := deep(got).(map[string]interface{}), deep(want).(map[string]interface{})
+	gm, _ := g["method"].(map[string]interface{})
+	wm, _ := w["method"].(map[string]interface{})
+	for _, k := range []string{"published", "updateCommitment", "recoveryCommitment", "anchorOrigin"} {
+		if !reflect.DeepEqual(gm[k], wm[k]) {
+			out = append(out, "method."+k)
+		}
+	}
+	for _, k := range []string{"deactivated", "versionId", "created", "updated", "canonicalId", "equivalentId"} {
+		gv, wv := g[k], w[k]
+		if k == "deactivated" {
+			gb, _ := gv.(bool)
+			wb, _ := wv.(bool)
+			if gb != wb {
+				out = append(out, k)
+			}
+			continue
+		}
+		if emptyish(gv) && emptyish(wv) {
+			continue
+		}
+		if !reflect.DeepEqual(gv, wv) {
+			out = append(out, k)
 		}
 	}
 	return out
